@@ -79,6 +79,18 @@ Theorem C20_empty_info : forall tgt, level_unmarshal_text G tgt [] = (0, true).
 Proof. exact (empty_info_thm G G_checked). Qed.
 Print Assumptions C20_empty_info.
 
+(* a text containing any byte >= 0x80 names no level, whatever the low seven bits of that byte spell
+   (asciiToLower must fold ASCII letters only); the target keeps its value *)
+Theorem C20_high_bit_rejected : forall tgt t, existsb high_bit t = true ->
+  level_unmarshal_text G tgt t = (tgt, false).
+Proof. exact (high_bit_rejected_thm G G_checked). Qed.
+Print Assumptions C20_high_bit_rejected.
+
+(* ... and the premise is met, e.g. by "info" with the high bit set on its first byte *)
+Example C20_ex_high_bit :
+  existsb high_bit [xe9; x6e; x66; x6f] = true /\ ascii_lower [xe9; x6e; x66; x6f] = [xe9; x6e; x66; x6f].
+Proof. vm_compute. split; reflexivity. Qed.
+
 (* what String/CapitalString print for the other 249 values is not a level name *)
 Theorem C20_invalid_level_text_rejected : forall l tgt, valid_level l = false ->
   level_unmarshal_text G tgt (level_string G l) = (tgt, false) /\
